@@ -173,6 +173,17 @@ func cryptoHistory(o opts, h int, r *rand.Rand) error {
 	}
 	for s := 0; s < o.steps; s++ {
 		n := pick(r, names)
+		if s == o.steps/2 {
+			// restart: open the existing file again; from here on the running server must not
+			// need the key-encryption key any more (not even for its first save)
+			b0 := kek.n.Load()
+			d2, err := db.Open(path, kek, al)
+			if err != nil {
+				return err
+			}
+			d = d2
+			emit("open\thist=%d\tkekuses=%d", h, kek.n.Load()-b0)
+		}
 		before := kek.n.Load()
 		var what string
 		switch r.Intn(7) {
